@@ -337,7 +337,10 @@ func (r *r1) publicationPass(cands []*types.Var) map[*types.Var]*pubResult {
 	sort.Slice(ctxs, func(i, j int) bool { return ctxs[i].key < ctxs[j].key })
 	for _, x := range ctxs {
 		x := x
-		cfg := &core.Config{EmitAccess: true}
+		cfg := &core.Config{EmitAccess: true, Follow: func(fn *types.Func) bool {
+			d := c.Prog.Decl(fn)
+			return d != nil && c.InScope(RelPkg(d.Pkg.PkgPath)) && (transfersLock(d) || publishesByClose(d))
+		}}
 		e := core.Entry{Decl: x.decl, Lit: x.lit, Pkg: x.pkg, Outer: x.outer, Locks: x.locks, Binds: x.binds, Name: x.key}
 		c.Walk("R1d", cfg, e, func(p *core.Path) {
 			type st struct {
